@@ -849,6 +849,30 @@ func (e *evalCtx) callExpr(x *sx) sval {
 			return e.mk(t.ifacePayload(T, v.term), T)
 		}
 		return e.mk(v.term, T)
+	case "selwaits", "selsends":
+		// selwaits(ch) / selwaits("select#n", ch): that select has a receive case on channel ch
+		// selsends(ch): ... a send case on ch.  Without a label: the select this clause is attached to.
+		cases := t.curSel
+		arg := args[0]
+		if len(args) == 2 {
+			if args[0].op != "str" {
+				e.fail("%s(\"select#n\", ch)", f.val)
+			}
+			cs, ok := t.selCases[args[0].val]
+			if !ok {
+				e.fail("unknown or not yet executed select %q", args[0].val)
+			}
+			cases, arg = cs, args[1]
+		}
+		ch := e.eval(arg)
+		var alts []string
+		for _, c := range cases {
+			if c.send == (f.val == "selsends") {
+				alts = append(alts, eq(c.ch, ch.term))
+			}
+		}
+		// (that the channel is non-nil is the usual trust in fields not declared nullable)
+		return boolv(or(alts...))
 	case "sel":
 		// sel("select#2"): the case index chosen by that select statement
 		if args[0].op != "str" {
